@@ -279,7 +279,21 @@ class AWorld:
                                            else ev.get('bytes'))
             return ev
 
+        def wake_client():
+            ws = getattr(conn, '_client_waiters', None)
+            if ws:
+                conn._client_waiters = []
+                for fut in ws:
+                    if not fut.done():
+                        fut.set_result(None)
+
         async def send(ev):
+            try:
+                return await send_(ev)
+            finally:
+                wake_client()
+
+        async def send_(ev):
             t = ev.get('type') if isinstance(ev, dict) else None
             if st['state'] == 'closed':
                 conn.tolerated.append('%s after close' % t)
@@ -328,6 +342,7 @@ class AWorld:
             finally:
                 conn.done = True
                 conn.t_end = self.clock.now
+                wake_client()
 
         conn._task = self.loop.create_task(run())
         self.conns.append(conn)
